@@ -116,6 +116,9 @@ def run(chk):
     r = tlc.trace(os.path.join(D, "Trace_Contains.tla"), os.path.join(D, "Trace_Contains.cfg"), tf)
     chk.require(any(k == "BAD" for k, _ in r.lines), "flipped answer accepted by Trace_Contains")
     chk.cov["distinct_nontrivial"] = distinct
+    # ---- bounding boxes (the fast rejection of Polygon::contains): specs/geom/BBox.tla
+    from . import bboxstage
+    chk.cov["bbox_pairs"] = bboxstage.stage(chk)
     return chk.finish(
         "model_checking",
         rule="every simple polygon as vertex sequence on lattices 0..2 (<=6 vertices) and 0..3 (<=4; thorough <=5, 0..4 <=4), each "
